@@ -2856,7 +2856,7 @@ def cbcheck(
         # reorder mass and stiffness:
         m = cbreorder(m, bseto)
         k = cbreorder(k, bseto)
-        i = np.argsort(bseto)
+        i = np.argsort(np.argsort(bseto))
         uset = uset.iloc[i]
 
         # define "new" order of b-set:
